@@ -8,6 +8,44 @@ COMMON = ["the harness module replaces github.com/openconfig/gnmi with /repo's w
           "rapid v1.3.0 generators; every random choice is a function of VERIF_SEED"]
 
 CHECKS = {
+    "C10": dict(
+        engine="ctreeprop",
+        technique=("deterministic gate schedules (testing/synctest + verifhook point ctree.add.upgrade) and free-running recorded histories under the race detector, "
+                   "both judged by a history checker: porcupine linearizability against a node-identity (generation-aware) sequential model of the tree, "
+                   "an interval rule for Query/Walk, a structural deadlock test on goroutine dumps, and race reports classified by their pair of top gnmi frames"),
+        level_text=("Gate part: 2-4 threads whose Adds share a not-yet-existing branch; an Add is parked between dropping the node's read lock and requesting its write lock "
+                    "(ancestors still read-locked) while the other threads add / look up / query beneath the same node (and delete, when the parked thread holds no lock), then released; "
+                    "the schedule is part of the generated data, every step runs to quiescence, the recorded history (parked Adds span their window, everything else is atomic, "
+                    "every query is a snapshot) must be linearizable including the final content; additionally every Add that returned nil is present unless overwritten/removed by a later or "
+                    "overlapping operation, and an Add that returned an error left no trace. "
+                    "Stress part (-race): histories of 2-16 goroutines x 20-60 operations (Add, GetLeafValue, GetLeaf, Leaf.Value/Update through retained handles, Query, Walk, Delete, DeleteConditional, "
+                    "WalkDeleted) on paths of depth <=3 below three subtrees, every invocation/response stamped from one atomic counter; point operations, deletes and the final walk must be linearizable "
+                    "(GetLeafValue = lookup + read inside one interval; an update through a stale handle is invisible in the tree); Query/Walk obey the interval rule (report what was present for "
+                    "the whole duration, nothing that was absent for the whole duration, only values written to that path before the query returned); all goroutines join; no unlisted race class. "
+                    "The stress part starts with one deterministic probe (DeleteConditional over three leaves whose condition callback schedules two sequential handle updates between its inspections), judged by the same history checker. "
+                    "Bounded exploration of schedules: the gate part is exhaustive in nothing, the stress part sees only schedules the Go scheduler produces."),
+        level_note=("trusts the ~600-line history judge (sequential model + interval rule) and porcupine v1.3.0; the whole history is judged exactly when porcupine finishes within 400 ms, otherwise "
+                    "(1-3% of histories) on its three per-subtree projections, which is sound but does not demand that a delete spanning subtrees takes effect in all of them at one instant "
+                    "(label judged-on-subtree-projections counts them); a porcupine timeout on a projection is inconclusive, never a violation; "
+                    "intervals handed to porcupine are narrowed only by order every legal explanation must have (unique values identify their writer); "
+                    "the deadlock verdict is structural (all live workers waiting for sync locks inside ctree, identical in two goroutine dumps 5 s apart), the wall clock only decides when to look; "
+                    "stress schedules cannot be reproduced: replay files hold the recorded history and a replay re-judges it (race classes with a minimal probe re-run the probe in a child process)"),
+        rule=("gate: a case is one schedule (0-2 initial leaves, 2-4 threads x 1-4 ops, 2-24 run/release steps, optional drain); non-trivial = a thread was parked in the upgrade window while another "
+              "thread's Add beneath the same node completed. stress: a case is one recorded history; non-trivial = >=2 operations of different goroutines on overlapping paths "
+              "(one a prefix of / matched by the other, or two Adds beneath a common first-level branch) whose invocation intervals overlapped; distinct = distinct hash of the scenario / of the recorded history. "
+              "open-finding classes understood by the engine: race-leaf-update-vs-delete (D6; alias race:ctree.(*Leaf).Update|ctree.(*Tree).internalDelete) and "
+              "conditional-delete-not-atomic-vs-handle-update: while listed open, handle updates are serialised against (conditional) deletes by a harness lock and every prevented overlap is counted in excluded_known"),
+        assumptions=COMMON + [SYNCTEST_ASSUMPTION,
+                              "stored values are non-nil ints, unique per write (nil is the tree's 'empty' sentinel); Add/Get paths contain no '*'",
+                              "gate part: a step that would need a lock held by a parked thread is skipped and counted (sync.RWMutex waits are invisible to synctest.Wait); no delete is scheduled while a parked thread holds an ancestor's read lock",
+                              "stress part: workloads are a function of the seed, schedules are the real scheduler's; handles are never taken on the root path and never updated when they designate a branch node; the stress part performs no operation on the root path itself (C09 covers root leaves sequentially)",
+                              "visit callbacks do not call back into the tree (documented precondition of Query/Walk)"],
+        parts=[
+            dict(name="gate", run="TestC10Gate", checks=dict(quick=1000, thorough=20000), shards=dict(quick=1, thorough=16)),
+            dict(name="stress", run="TestC10Stress", rapid=False, race=True,
+                 args=dict(quick=["-c10.histories=200", "-c10.stall=20s"], thorough=["-c10.histories=3000"]), shards=dict(quick=1, thorough=8)),
+        ],
+    ),
     "C01": dict(
         engine="e2e",
         technique="end-to-end property testing (rapid) over real processes: reference interpretation of generated target streams vs the client cache and vs gnmi_cli output; metamorphic agreement of three CLI invocation styles",
